@@ -1,5 +1,7 @@
 import Vflow.Proofs.SflowSpec2
 import Vflow.Gen.SflowLayouts
+import Vflow.Gen.Sites
+import Vflow.Spec.Sites
 /-!
 # C07 — sFlow samples and counters are decoded field for field
 
@@ -253,5 +255,10 @@ theorem gen_counter_layouts :
 theorem gen_ext_switch_layout :
     Gen.SflowLayouts.extSwitch = [("SrcVlan", 4), ("SrcPriority", 4), ("DstVlan", 4), ("DstPriority", 4)] := by
   decide +kernel
+
+/-- **Tie (control-flow skeleton)**: every branch / loop condition, switch case and `break` / `continue` of the
+sources this model mirrors, re-extracted on every run, is exactly the reviewed inventory in `Spec/Sites.lean`
+(which names the model clause of each).  A changed bound, a new or dropped branch breaks this obligation. -/
+theorem guards_reviewed : Gen.Sites.guardsSflow = Spec.Sites.guardsSflow := by decide +kernel
 
 end Vflow.C07
